@@ -143,10 +143,9 @@ theorem value_singular {e : CatEntry} (h : e.WF) (hp : e.plural = none) : e.form
   match hf : e.forms, h1 with
   | [f], _ => rfl
 
-/-- the second half of `_parse_entry` on a well-formed entry: the decoding of the entry with context and
-    msgid exchanged -/
+/-- the second half of `_parse_entry` on a well-formed entry: the decoding of the entry -/
 theorem buildEntry_spec (db : CodecDB) (enc : Bytes) {e : CatEntry} (h : e.WF) :
-    buildEntry db enc (split 0 2 e.key) e.value (splitAll 0 e.value) = decodeEntry db enc (swapCtxt e) := by
+    buildEntry db enc (split 0 2 e.key) e.value (splitAll 0 e.value) = decodeEntry db enc e := by
   rw [split_key h, splitAll_value h]
   have hk0 := split_key0 h
   have hne := h.forms_ne
@@ -159,11 +158,11 @@ theorem buildEntry_spec (db : CodecDB) (enc : Bytes) {e : CatEntry} (h : e.WF) :
     | [f], _ =>
       cases ctxt with
       | none =>
-        simp only [buildEntry, List.headD, hk0, List.tail, List.length_singleton, swapCtxt, decodeEntry, decOpt,
+        simp only [buildEntry, List.headD, hk0, List.getLastD, List.dropLast, List.length_singleton, decodeEntry, decOpt,
           CatEntry.value, join0]
         rcases dec_cases db enc msgid with ⟨t, ht⟩ | ht <;> simp [ht] <;> rfl
       | some c =>
-        simp only [buildEntry, List.headD, hk0, List.tail, List.length_singleton, swapCtxt, decodeEntry, decOpt,
+        simp only [buildEntry, List.headD, hk0, List.getLastD, List.dropLast, List.length_singleton, decodeEntry, decOpt,
           CatEntry.value, join0]
         rcases dec_cases db enc msgid with ⟨t, ht⟩ | ht <;> rcases dec_cases db enc c with ⟨u, hu⟩ | hu <;> simp [ht, hu] <;> rfl
   | some p =>
@@ -173,16 +172,16 @@ theorem buildEntry_spec (db : CodecDB) (enc : Bytes) {e : CatEntry} (h : e.WF) :
       | cons _ _ => simp
     cases ctxt with
     | none =>
-      simp only [buildEntry, List.headD, hk0, List.tail, swapCtxt, decodeEntry, decOpt, hl]
+      simp only [buildEntry, List.headD, hk0, List.getLastD, List.dropLast, decodeEntry, decOpt, hl]
       rcases dec_cases db enc msgid with ⟨t, ht⟩ | ht <;> simp [ht, List.getD] <;> rfl
     | some c =>
-      simp only [buildEntry, List.headD, hk0, List.tail, swapCtxt, decodeEntry, decOpt, hl]
+      simp only [buildEntry, List.headD, hk0, List.getLastD, List.dropLast, decodeEntry, decOpt, hl]
       rcases dec_cases db enc msgid with ⟨t, ht⟩ | ht <;> rcases dec_cases db enc c with ⟨u, hu⟩ | hu <;> simp [ht, hu, List.getD] <;> rfl
 
 /-- what `_parse_entry` computes on a well-formed entry, as a function of the parser state -/
 def entryResult (db : CodecDB) (e : CatEntry) (st : St) (i : Nat) : Except Err (Entry × St) :=
   if i = 0 then
-    match decodeEntry db (selectEncoding db st.encoding e.key0 e.value) (swapCtxt e) with
+    match decodeEntry db (selectEncoding db st.encoding e.key0 e.value) e with
     | .error x => .error x
     | .ok d => .ok (d, ⟨some (selectEncoding db st.encoding e.key0 e.value), some e.key0⟩)
   else
@@ -193,7 +192,7 @@ def entryResult (db : CodecDB) (e : CatEntry) (st : St) (i : Nat) : Except Err (
       else match st.encoding with
         | none => .error (.crash .assertion)
         | some enc =>
-          match decodeEntry db enc (swapCtxt e) with
+          match decodeEntry db enc e with
           | .error x => .error x
           | .ok d => .ok (d, ⟨st.encoding, some e.key0⟩)
 
@@ -213,7 +212,7 @@ theorem parseEntry_spec (db : CodecDB) {be : Bool} {b : Bytes} {ko vo : Nat} {e 
     if_false, pyListEqBytes, entryResult]
   by_cases hi : i = 0
   · simp only [hi, if_true]
-    cases decodeEntry db (selectEncoding db st.encoding e.key0 e.value) (swapCtxt e) <;> rfl
+    cases decodeEntry db (selectEncoding db st.encoding e.key0 e.value) e <;> rfl
   · simp only [hi, if_false]
     cases st.last with
     | none => rfl
@@ -294,7 +293,7 @@ theorem parseEntry_cases (db : CodecDB) (be : Bool) (b : Bytes) (st : St) (i ko 
 theorem loop_spec (db : CodecDB) {be : Bool} {b : Bytes} {ko to : Nat} :
     ∀ (cat : List CatEntry) (i : Nat) (enc last : Bytes), i ≠ 0 →
       EntriesAt be b ko to i cat → (∀ e ∈ cat, e.WF) → Sorted (last :: cat.map CatEntry.key0) →
-      loop db be b ko to cat.length i ⟨some enc, some last⟩ = decodeEntries db enc (cat.map swapCtxt) := by
+      loop db be b ko to cat.length i ⟨some enc, some last⟩ = decodeEntries db enc cat := by
   intro cat
   induction cat with
   | nil => intros; rfl
@@ -308,28 +307,28 @@ theorem loop_spec (db : CodecDB) {be : Bool} {b : Bytes} {ko to : Nat} :
       | true => exact absurd ((bytesLt_iff _ _).1 h) hlt
     simp only [List.length_cons, loop, parseEntry_spec db hk hv (hwf e (by simp)), entryResult, hi, if_false, hb,
       List.map_cons, decodeEntries]
-    cases decodeEntry db enc (swapCtxt e) with
+    cases decodeEntry db enc e with
     | error x => rfl
     | ok d =>
       simp only [Bool.false_eq_true, if_false]
       rw [ih (i + 1) enc e.key0 (by omega) hrest (fun x hx => hwf x (List.mem_cons_of_mem _ hx)) hs']
-      cases decodeEntries db enc (es.map swapCtxt) <;> rfl
+      cases decodeEntries db enc es <;> rfl
 
 theorem loop_spec0 (db : CodecDB) (given : Option Bytes) {be : Bool} {b : Bytes} {ko to : Nat} (cat : List CatEntry)
     (hE : EntriesAt be b ko to 0 cat) (hwf : ∀ e ∈ cat, e.WF) (hs : Sorted (cat.map CatEntry.key0)) :
-    loop db be b ko to cat.length 0 ⟨given, none⟩ = decodeEntries db (charsetOf db given cat) (cat.map swapCtxt) := by
+    loop db be b ko to cat.length 0 ⟨given, none⟩ = decodeEntries db (charsetOf db given cat) cat := by
   cases cat with
   | nil => rfl
   | cons e es =>
     obtain ⟨hk, hv, hrest⟩ := hE
     simp only [List.length_cons, loop, parseEntry_spec db hk hv (hwf e (by simp)), entryResult, if_true,
       List.map_cons, decodeEntries, charsetOf]
-    cases decodeEntry db (selectEncoding db given e.key0 e.value) (swapCtxt e) with
+    cases decodeEntry db (selectEncoding db given e.key0 e.value) e with
     | error x => rfl
     | ok d =>
       simp only []
       rw [loop_spec db es (0 + 1) _ e.key0 (by omega) hrest (fun x hx => hwf x (List.mem_cons_of_mem _ hx)) hs]
-      cases decodeEntries db (selectEncoding db given e.key0 e.value) (es.map swapCtxt) <;> rfl
+      cases decodeEntries db (selectEncoding db given e.key0 e.value) es <;> rfl
 
 theorem magic_ne : leMagic ≠ beMagic := by decide
 
@@ -337,32 +336,32 @@ theorem slice_magic {b : Bytes} {be : Bool} (h : Slice b 0 (magicOf be)) : slice
   have := slice_zero_of_Slice h
   cases be <;> simpa [magicOf, leMagic, beMagic] using this
 
-/-- **completeness**: a byte string that encodes `cat` is parsed to what `expectedAsCoded` says -/
+/-- **completeness**: a byte string that encodes `cat` is parsed to what `expected` says -/
 theorem parse_complete (db : CodecDB) (given : Option Bytes) {b : Bytes} {cat : List CatEntry} {hidden : Bool}
     (h : Encodes b cat hidden) (hwf : ∀ e ∈ cat, e.WF) :
-    parse db given b = expectedAsCoded db given cat hidden := by
+    parse db given b = expected db given cat hidden := by
   obtain ⟨be, major, minor, ko, to, hm, hrev, hmaj, hmin, hn, hh, hko, hto, hE, hs⟩ := h
-  have hbody : parseBody db given b be = expectedAsCoded db given cat hidden := by
+  have hbody : parseBody db given b be = expected db given cat hidden := by
     have hd : (major * 65536 + minor) / 65536 = major := by omega
     have hmo : (major * 65536 + minor) % 65536 = minor := by omega
     have hm1 : ¬ major > 1 := by omega
     simp only [parseBody, read1_of_WordAt hrev, hd, hmo, hm1, if_false, read1_of_WordAt hn, read2_of_WordAt hko hto,
-      loop_spec0 db given cat hE hwf hs, expectedAsCoded]
+      loop_spec0 db given cat hE hwf hs, expected]
     unfold HiddenFlag at hh
     by_cases h1 : minor > 1
     · simp only [h1, if_true] at hh ⊢
       subst hh
-      cases decodeEntries db (charsetOf db given cat) (cat.map swapCtxt) <;> rfl
+      cases decodeEntries db (charsetOf db given cat) cat <;> rfl
     · by_cases h2 : minor = 1
       · subst h2
         simp only [h1, if_false, if_true] at hh ⊢
         obtain ⟨ns, hns, hh⟩ := hh
         subst hh
         simp only [read1_of_WordAt hns]
-        cases decodeEntries db (charsetOf db given cat) (cat.map swapCtxt) <;> rfl
+        cases decodeEntries db (charsetOf db given cat) cat <;> rfl
       · simp only [h1, h2, if_false] at hh ⊢
         subst hh
-        cases decodeEntries db (charsetOf db given cat) (cat.map swapCtxt) <;> rfl
+        cases decodeEntries db (charsetOf db given cat) cat <;> rfl
   have hsl := slice_magic hm
   cases be with
   | false => simp only [parse, hsl, magicOf, Bool.false_eq_true, if_false, if_true]; exact hbody
@@ -408,7 +407,7 @@ theorem entryResult_closed (db : CodecDB) (e : CatEntry) (st : St) (i : Nat) (h 
       (∀ l, i ≠ 0 → st.last = some l → ¬ e.key0 < l)) := by
   by_cases hi : i = 0
   · simp only [entryResult, hi, if_true]
-    rcases decodeEntry_cases db (selectEncoding db st.encoding e.key0 e.value) (swapCtxt e) with ⟨d, hd⟩ | hd
+    rcases decodeEntry_cases db (selectEncoding db st.encoding e.key0 e.value) e with ⟨d, hd⟩ | hd
     · right; right
       exact ⟨d, ⟨some (selectEncoding db st.encoding e.key0 e.value), some e.key0⟩, by simp only [hd], Or.inr ⟨⟨_, rfl⟩, ⟨_, rfl⟩⟩, rfl, fun _ h => absurd rfl h⟩
     · right; left; simp only [hd]
@@ -419,7 +418,7 @@ theorem entryResult_closed (db : CodecDB) (e : CatEntry) (st : St) (i : Nat) (h 
       | true => left; exact ⟨.notSorted, by simp⟩
       | false =>
         have hnlt : ¬ e.key0 < l := fun hlt => by rw [(bytesLt_iff _ _).2 hlt] at hb; cases hb
-        rcases decodeEntry_cases db enc (swapCtxt e) with ⟨d, hd⟩ | hd
+        rcases decodeEntry_cases db enc e with ⟨d, hd⟩ | hd
         · right; right
           refine ⟨d, ⟨some enc, some e.key0⟩, by simp [hd], Or.inr ⟨⟨_, rfl⟩, ⟨_, rfl⟩⟩, rfl, ?_⟩
           intro l' _ hl'; cases hl'; exact hnlt
@@ -607,7 +606,7 @@ theorem loop_no_decode (db : CodecDB) {enc : Bytes} (hc : db.asciiCompatible enc
       simp only [loop, hspec, entryResult, selectEncoding_given hc]
       by_cases hi : i = 0
       · simp only [hi, if_true]
-        rcases decodeEntry_cases db enc (swapCtxt e) with ⟨d, hd⟩ | hd
+        rcases decodeEntry_cases db enc e with ⟨d, hd⟩ | hd
         · simp only [hd]
           have := ih (0 + 1) (some e.key0)
           cases hl : loop db be b ko to n (0 + 1) ⟨some enc, some e.key0⟩ with
@@ -622,7 +621,7 @@ theorem loop_no_decode (db : CodecDB) {enc : Bytes} (hc : db.asciiCompatible enc
           cases hb : bytesLt e.key0 last with
           | true => simp
           | false =>
-            rcases decodeEntry_cases db enc (swapCtxt e) with ⟨d, hd⟩ | hd
+            rcases decodeEntry_cases db enc e with ⟨d, hd⟩ | hd
             · simp only [hd, Bool.false_eq_true, if_false]
               have := ih (i + 1) (some e.key0)
               cases hl : loop db be b ko to n (i + 1) ⟨some enc, some e.key0⟩ with
